@@ -301,6 +301,8 @@ def run(tier, seed):
     results = run_pool("vx.checks.c09", "work", units)
     states = transitions = 0
     for status, res in results:
+        if status == "skipped":
+            continue
         if status != "ok":
             run.report({"signature": {"kind": "worker-exception"}, "what": f"harness worker failed: {res}", "case": {}})
             continue
